@@ -1383,3 +1383,23 @@ def guards(body, b):
             lab = "false"
         out.append((switch_desc(body, a), lab, a))
     return out
+
+
+def dom_guards(body, b):
+    """Branch conditions that necessarily hold whenever block b is entered: for every switch block
+    a that dominates b, the unique successor s (with a as only predecessor) that dominates b.
+    Unlike `guards`, loops do not add the conditions of sibling arms."""
+    out = []
+    for a in range(body.n):
+        if body.is_cleanup(a) or body.term(a)["k"] != "switch":
+            continue
+        if a == b or not body.dominates(a, b):
+            continue
+        for s in body.succ[a]:
+            if body.pred[s] == [a] and body.dominates(s, b):
+                lab = edge_label(body, a, s)
+                if lab == "0" and set(body.switch_info(a)["raw_arms"].keys()) == {0}:
+                    lab = "false"
+                out.append((switch_desc(body, a), lab, a))
+                break
+    return out
